@@ -108,6 +108,16 @@ def run_impl(chunks):
     return trace
 
 
+REJECT_SIG = 'C07:msg-reject-field-order'
+REJECT_WHAT = ('MSG_REJECT is encoded and decoded with the rejected message type before the reason code, the reverse of '
+               'RFC 9174 5.1.2: an independent RFC decoder reads the two fields swapped, and vice versa')
+
+
+def _reject_swapped(g, w):
+    return (g.get('k') == 'msg_reject' and w.get('k') == 'msg_reject'
+            and g['rej_id'] == w['reason'] and g['reason'] == w['rej_id'])
+
+
 def monitor(chk, stream, chunks, trace, label):
     ''' Independent statement of C07 on the implementation trace: after each read the messages handed
     over so far are exactly the frames wholly contained in the octets received so far. '''
@@ -122,6 +132,10 @@ def monitor(chk, stream, chunks, trace, label):
             return False
         got += t['msgs']
         want = [m for (m, end) in frames if end <= recvd]
+        if got != want and len(got) == len(want) and all(g == w or _reject_swapped(g, w) for g, w in zip(got, want)):
+            chk.violation(REJECT_SIG, REJECT_WHAT, {'stream': stream.hex(), 'impl_msgs': [g for g, w in zip(got, want) if g != w][:1],
+                                                    'rfc_msgs': [w for g, w in zip(got, want) if g != w][:1]})
+            got = list(want)
         if got != want:
             if len(got) < len(want):
                 missing = want[len(got)]
@@ -207,7 +221,9 @@ def run(chk):
             continue
         chk.case({'codec': m}, sample=(m['k'] == 'xfer_segment' and len(chk.cov['samples']) < 2))
         chk.count('codec:' + m['k'])
-        if impl != want:
+        if impl != want and m['k'] == 'msg_reject' and impl == tu.rfc_encode(dict(m, rej_id=m['reason'], reason=m['rej_id'])):
+            chk.violation(REJECT_SIG, REJECT_WHAT, {'msg': m, 'impl': impl.hex(), 'rfc': want.hex()})
+        elif impl != want:
             chk.violation('C07:encode-differs-%s' % m['k'], 'implementation encodes %s differently from RFC 9174' % m['k'],
                           {'msg': m, 'impl': impl.hex(), 'rfc': want.hex()})
         if out is not None and out.get('hex') != impl.hex():
@@ -222,6 +238,19 @@ def run(chk):
             back = {'k': 'raises', 'err': repr(err)}
         if back != m and not (m['k'] == 'keepalive' and back == {'k': 'need'}):
             chk.violation('C07:decode-differs-%s' % m['k'], 'implementation decodes its own %s to different fields' % m['k'], {'msg': m, 'decoded': back})
+        # the same fields include the items of a well-formed extension list (flags, type, value each)
+        if m.get('ext'):
+            want_items = tu.rfc_ext_items(bytes.fromhex(m['ext']))
+            try:
+                got_items = [(int(i.flags), int(i.type), bytes(i.payload)) if hasattr(i, 'type') else ('raw', bytes(i))
+                             for i in cls(impl).payload.ext_items]
+            except Exception as err:
+                got_items = repr(err)
+            chk.count('ext_items:%d' % len(want_items))
+            if got_items != want_items:
+                chk.violation('C07:ext-items-not-itemised-%s' % ('many' if len(want_items) > 1 else 'one'),
+                              'extension list of %d well-formed item(s) in %s is decoded as %s' % (len(want_items), m['k'], str(got_items)[:120]),
+                              {'msg': m, 'decoded_items': str(got_items)[:400]})
 
     # 2. framing under chunkings
     for si in range(n_streams):
